@@ -30,7 +30,10 @@ SHADOWS = bars.ACTUATOR_SHADOWS + ("demeter.core.backtest",)
 N = 4
 
 
-def _config_and_data():
+OPT = "ETH-29SEP23-1700-C"
+
+
+def _config_and_data(deribit=False):
     from demeter import TokenInfo, MarketInfo
     from demeter.core import StrategyConfig, BacktestData, BacktestConfig
     from demeter.uniswap import UniLpMarket, UniV3Pool
@@ -41,8 +44,22 @@ def _config_and_data():
     df = bars.uni_frame(N)
     _add_statistic_column(df, pool)
     market = UniLpMarket(MarketInfo("uni"), pool)
-    cfg = StrategyConfig(assets={usdc: D(10000), eth: D(5)}, markets=[market])
-    data = BacktestData(data={market.market_info: df}, prices=get_price_from_data(df, pool))
+    markets, frames = [market], {market.market_info: df}
+    assets = {usdc: D(10000), eth: D(5)}
+    if deribit:
+        # an hourly option market in the shared configuration; its frame (with nested order-book lists) is shared data
+        from .c05 import _deribit_market
+
+        dm = _deribit_market(bars.START, N)
+        ddf = dm.data
+        for h in ddf.index.get_level_values(0).unique():
+            ddf.at[(h, OPT), "asks"] = [[0.0201, 500.0], [0.0205, 5000.0]]
+        dm2 = type(dm)(dm.market_info, type(dm).ETH)
+        markets.append(dm2)
+        frames[dm2.market_info] = ddf
+        assets[type(dm).ETH] = D(500)
+    cfg = StrategyConfig(assets=assets, markets=markets)
+    data = BacktestData(data=frames, prices=get_price_from_data(df, pool))
     return cfg, data, BacktestConfig(print_actions=False, print_result=False, interval="1min")
 
 
@@ -77,11 +94,25 @@ class _Mixin:
             self.broker.markets.default.add_liquidity_by_tick(199900, 200100, prm["base"], prm["quote"])
         if self.kind == "trader" and snapshot.row_id == 1 and prm["active"]:
             self.broker.markets.default.buy(prm["base"])
+        if self.kind in ("opt_capped", "opt_plain") and snapshot.row_id == 0 and prm["active"]:
+            dm = [m for m in self.broker.markets.values() if type(m).__name__ == "DeribitOptionMarket"][0]
+            dm.deposit(D(400))
+            try:
+                if self.kind == "opt_capped":
+                    dm.buy(OPT, prm["contracts"], max_mark_price_multiple=D("1.2"))
+                else:
+                    dm.buy(OPT, prm["contracts"])
+            except Exception as e:
+                self.rejected = type(e).__name__
 
     def finalize(self):
         mk = self.broker.markets.default
+        dms = [m for m in self.broker.markets.values() if type(m).__name__ == "DeribitOptionMarket"]
         self.sink.append(
             dict(
+                option_cash=dms[0].balance if dms else 0,
+                option_positions=sorted((k, p.amount, p.avg_buy_price) for k, p in dms[0].positions.items()) if dms else [],
+                rejected=getattr(self, "rejected", None),
                 kind=self.kind,
                 net=[s.net_value for s in self.account_status],
                 bal=[sorted(((k.name, v) for k, v in s.asset_balances.items())) for s in self.account_status],
@@ -119,10 +150,10 @@ class FileSink:
             json.dump({k: str(v) for k, v in rec.items()}, f)
 
 
-def _run_manager(kinds, params, threads=1):
+def _run_manager(kinds, params, threads=1, deribit=False):
     from demeter.core import BacktestManager
 
-    cfg, data, bcfg = _config_and_data()
+    cfg, data, bcfg = _config_and_data(deribit)
     sink = []
     strategies = [_make_strategy(k, params[k], sink) for k in kinds]
     import contextlib, io
@@ -140,6 +171,7 @@ def _equal_records(ctx, label, a, b):
         items.append((f"{label}: per-bar wallet balances equal those of running alone", len(x) == len(y) and sand(*[sand(p[0] == q[0], p[1] == q[1]) for p, q in zip(x, y)])))
     items.append((f"{label}: final positions equal those of running alone", len(a["positions"]) == len(b["positions"]) and sand(*[sand(*[u == v for u, v in zip(p, q)]) for p, q in zip(a["positions"], b["positions"])])))
     items.append((f"{label}: action list and notifications equal those of running alone", a["n_actions"] == b["n_actions"] and a["n_notify"] == b["n_notify"]))
+    items.append((f"{label}: option account (cash, positions, average prices, rejections) equals that of running alone", sand(a["option_cash"] == b["option_cash"], a["rejected"] == b["rejected"], len(a["option_positions"]) == len(b["option_positions"]), *[sand(p[0] == q[0], p[1] == q[1], p[2] == q[2]) for p, q in zip(a["option_positions"], b["option_positions"])])))
     ctx.check_all(items)
 
 
@@ -148,11 +180,16 @@ def isolation(ctx):
     kinds = p["kinds"]
     bars.quiet_actuator_module()
     params = {}
-    for k in set(kinds):
+    for k in sorted(set(kinds)):
         params[k] = dict(active=ctx.flag(f"{k}_trades"), base=ctx.dec(f"{k}_base", D("0.001"), 2), quote=ctx.dec(f"{k}_quote", 1, 3000))
+        if k.startswith("opt_"):
+            from ..models.deribit import _dec
+
+            params[k]["contracts"] = _dec(ctx.int_(f"{k}_contracts", 1, 3000))
+    der = bool(p.get("deribit"))
     try:
-        together = _run_manager(kinds, params)
-        alone = {k: _run_manager([k], params)[0] for k in set(kinds)}
+        together = _run_manager(kinds, params, deribit=der)
+        alone = {k: _run_manager([k], params, deribit=der)[0] for k in set(kinds)}
     except Exception as e:
         ctx.outcome("raised:" + type(e).__name__)
         ctx.check(f"the backtest manager runs the strategies without an exception (got {type(e).__name__})", False, detail=str(e)[:300])
@@ -221,6 +258,9 @@ def scenarios(tier):
     orders = [("lp", "idle"), ("idle", "lp"), ("lp", "trader"), ("trader", "lp"), ("trader", "idle", "lp"), ("lp", "lp", "idle")]
     if tier != "quick":
         orders += [("lp", "trader", "idle"), ("trader", "trader"), ("lp", "lp"), ("idle", "trader", "lp")]
+    der_shadows = tuple(dict.fromkeys(SHADOWS + ("demeter.deribit.market", "demeter.deribit.helper", "demeter.deribit._typing")))
+    for ks in (("opt_capped", "opt_plain"), ("opt_plain", "opt_capped")):
+        out.append(Scenario("isolation/deribit/" + "+".join(ks), isolation, params=dict(kinds=ks, deribit=True), entry=("BacktestManager.run", "_start", "DeribitOptionMarket.buy"), **dict(kw, shadows=der_shadows)))
     for ks in orders:
         out.append(Scenario("isolation/" + "+".join(ks), isolation, params=dict(kinds=ks, forked=len(ks) == 3), entry=("BacktestManager.run", "_start", "Broker.add_market", "Actuator.run"), canary="CANARY no strategy ever trades", **kw))
     return out
